@@ -92,6 +92,12 @@ def run(chk, tier):
     import consumed as _consumed
     ndg = _consumed.dangling(chk, P, ["topology-linux.c", "topology-x86.c", "pci-common.c", "topology-pci.c", "topology-hardwired.c"])
     chk.floor("R-DANGLE", "stores of a local into an owning field", ndg, 4)
+    chk.rule("R-SPRINTF", "unbounded sprintf() into a fixed-size local buffer of the discovery backends fits for the longest text its format can produce (worst-case length per conversion, counted loops exact)")
+    import sprintfmax
+    nsp, nspj = sprintfmax.run(chk, P, ["topology-linux.c", "topology-x86.c", "pci-common.c", "topology-pci.c", "topology-hardwired.c", "topology-noos.c"])
+    chk.floor("R-SPRINTF", "sprintf sites into fixed local buffers judged", nsp, 10)
+    if nspj:
+        chk.notes.append("R-SPRINTF: %d sprintf sites not judged (a %%s argument that is not a literal or a literal-returning function)" % nspj)
     chk.decided += ['a failed step never leaves an owning field pointing at a block the function has already released (no dangling pointer for the destructor to release again)',
                     'arrays handed to a function that takes ownership of them (hwloc_internal_distances_add: attached on success, freed on failure) are not freed again by the caller',
                     'a value read from a sysfs/procfs file into an unset local is not used when the read failed; a pointer left NULL by a failed parser is not dereferenced',
